@@ -321,7 +321,8 @@ fn specs() -> Vec<Spec> {
         Spec { name: "SNI name type", bits: 8, registry: Some(&ia::SNI_TYPE), probe: |v, t| {
             // the value in several positions, next to an entry of the same type and next to entries of other types: every entry is returned
             let other = (v as u8).wrapping_add(1 + t.u8() % 254);
-            let l0 = vec![(v as u8, t.small_blob(12)), (v as u8, b"b.example".to_vec()), (other, b"example.org".to_vec()), (v as u8, vec![]), (0, b"a".to_vec())];
+            // (names: arbitrary bytes, DNS names, and the address literals and odd shapes of vmodel::HOST_NAMES - what the name looks like does not select the structure either)
+            let l0 = vec![(v as u8, t.small_blob(12)), (v as u8, b"b.example".to_vec()), (other, b"example.org".to_vec()), (v as u8, vec![]), (0, b"a".to_vec()), (v as u8, HOST_NAMES[v as usize % HOST_NAMES.len()].as_bytes().to_vec()), (v as u8, b"192.0.2.1".to_vec()), (v as u8, b"2001:db8::1".to_vec())];
             let m = MExt::Sni(l0.clone());
             match parse_tls_extension(&m.to_bytes()).map_err(err)?.1 {
                 TlsExtension::SNI(l) => {
@@ -372,11 +373,27 @@ fn specs() -> Vec<Spec> {
             match parse_tls_extension(&m.to_bytes()).map_err(err)?.1 { TlsExtension::SupportedVersions(l) => Ok(l.last().map(|x| x.0 as u32).unwrap_or(0x1_0000)), o => Err(format!("{:?}", o)) }
         } },
         Spec { name: "DTLS record version", bits: 16, registry: Some(&ia::VERSION), probe: |v, t| {
-            let r = MDtlsRecord { ctype: 0x15, version: v as u16, epoch: t.u16(), seq: t.u32() as u64, msgs: vec![MDtlsMsg::Alert(t.u8(), t.u8())] };
-            parse_dtls_plaintext_record(&r.to_bytes()).map(|(_, p)| p.header.version.0 as u32).map_err(err)
+            // the same version over each kind of record content: the version selects no structure, so the messages come back as written
+            let (a, b) = (t.u8(), t.u8());
+            let mut seen = None;
+            for (ctype, msgs) in [(0x15u8, vec![MDtlsMsg::Alert(a, b)]), (0x14, vec![MDtlsMsg::Ccs]), (0x14, vec![MDtlsMsg::Ccs; 3]), (0x15, vec![MDtlsMsg::Alert(2, 40), MDtlsMsg::Alert(1, 0)])] {
+                let r = MDtlsRecord { ctype, version: v as u16, epoch: t.u16(), seq: t.u32() as u64, msgs: msgs.clone() };
+                let bytes = r.to_bytes();
+                let (_, p) = parse_dtls_plaintext_record(&bytes).map_err(|e| format!("content type {:#04x} with {} message(s): {}", ctype, msgs.len(), err(e)))?;
+                if p.messages.len() != msgs.len() {
+                    return Err(format!("content type {:#04x}: {} message(s) written, {} read back", ctype, msgs.len(), p.messages.len()));
+                }
+                if seen.map_or(false, |s| s != p.header.version.0 as u32) {
+                    return Err("version differs between records".into());
+                }
+                seen = Some(p.header.version.0 as u32);
+            }
+            Ok(seen.unwrap())
         } },
         Spec { name: "DTLS ClientHello / HelloVerifyRequest version", bits: 16, registry: Some(&ia::VERSION), probe: |v, t| {
-            let body = if t.bool() { MDtlsBody::HelloVerifyRequest { version: v as u16, cookie: t.small_blob(20) } } else { MDtlsBody::ClientHello { version: v as u16, random: t.bytes(32), sid: None, cookie: t.small_blob(20), ciphers: vec![t.u16()], comp: vec![0], ext: None } };
+            // cookies of every length class next to every version (RFC 4347 had cookie<0..32>, RFC 6347 has <0..255>: the parser takes 0..255 for every version)
+            let cl = [0usize, 20, 32, 33, 48, 255][(v as usize + t.below(6)) % 6];
+            let body = if t.bool() { MDtlsBody::HelloVerifyRequest { version: v as u16, cookie: t.bytes(cl) } } else { MDtlsBody::ClientHello { version: v as u16, random: t.bytes(32), sid: None, cookie: t.bytes(cl), ciphers: vec![t.u16()], comp: vec![0], ext: None } };
             let ty = if matches!(body, MDtlsBody::HelloVerifyRequest { .. }) { 3 } else { 1 };
             let mut be = Enc::new();
             body.encode(&mut be);
